@@ -44,6 +44,15 @@ class PDB:
 
     # ---- constants -------------------------------------------------------------------------
     def const(self, name):
+        # a trait's associated constant may be overridden in an impl (`<u64 as Trait>::NAME`): what users of the
+        # implementing type read is the override
+        if '::' in name and not name.startswith('<'):
+            tr, nm = name.rsplit('::', 1)
+            ov = [k for k in self.consts if k.startswith('<') and k.endswith(' as %s>::%s' % (tr, nm))]
+            if len(ov) == 1:
+                name = ov[0]
+            elif len(ov) > 1:
+                raise Uncertified("associated constant %s is overridden in %d impls" % (name, len(ov)))
         c = self.consts.get(name)
         if c is None:
             raise Uncertified("missing constant %s" % name)
